@@ -166,6 +166,12 @@ def cases(rng, seeds):
         for s in seeds[:2]:
             out.append((f"watts_strogatz_hypergraph({n},{d},{k},{l},p=0)", P("ring", n=n, d=d, k=k, l=l),
                         lambda n=n, d=d, k=k, l=l, s=s: xgi.watts_strogatz_hypergraph(n, d, k, l, 0, seed=s)))
+    # rewired lattices: still exactly the n requested nodes, every edge a set of at most d of them
+    for n, d, k, l in ((6, 3, 2, 0), (10, 3, 2, 0), (5, 2, 2, 1)):
+        for prob in (0.3, 1):
+            for s in list(seeds) + [seeds[0] + 100 + i for i in range(12)]:
+                out.append((f"watts_strogatz_hypergraph({n},{d},{k},{l},p={prob})", P("random", n=n, sizes=list(range(1, d + 1))),
+                            lambda n=n, d=d, k=k, l=l, prob=prob, s=s: xgi.watts_strogatz_hypergraph(n, d, k, l, prob, seed=s)))
     for a, b, d in ((1, 1, 0), (2, 3, 1), (3, 3, 2), (4, 2, 1), (2, 4, 3), (1, 3, 2)):
         out.append((f"star_clique({a},{b},{d})", P("star_clique", a=a, b=b, d=d), lambda a=a, b=b, d=d: xgi.star_clique(a, b, d)))
     for l, c, m in ((3, 1, 3), (2, 2, 4), (4, 0, 2), (3, 2, 2), (1, 1, 3), (2, 3, 3)):
